@@ -29,6 +29,8 @@ def config_module(mem, data, table, elems, start, two_instances=False):
         m.imports.append(('env', 'mem', 2, (1, 2))); externs.append(('env', 'mem', 'memory', (1, 2, False)))
     elif mem == 'defined':
         m.mems.append((1, 2))
+    elif mem == 'shared':         # a defined SHARED memory: reserved at its maximum, but its size is the declared minimum
+        m.mems.append((1, 3, True))
     if table == 'imported':
         m.imports.append(('env', 'tab', 1, (12, 12))); externs.append(('env', 'tab', 'table', (12, 12)))
     elif table == 'defined':
@@ -90,6 +92,7 @@ def config_module(mem, data, table, elems, start, two_instances=False):
         elif data == 'passive+active':
             m.datas.append(('passive', 0, b'', segbytes(17, 0x10)))
             m.datas.append(('active2', 0, i32_const(40), segbytes(17, 0xf0)))
+            m.datas.append(('active', 0, i32_const(60), segbytes(5, 0x71)))
             m.datacount = True
             obs['init'] = fn('memory.init', 'iii', '', local_get(0) + local_get(1) + local_get(2) + memory_init(0), [(70, 0, 17)])
         elif data == 'globaloff':
@@ -175,6 +178,15 @@ def main(tier):
                 for elems in ((0,) if table == 'none' else (0, 1, 2)):
                     for start in ('none', 'defined', 'imported'):
                         jobs.append(('config', config_module(mem, data, table, elems, start), {'cc': 'gcc', 'cflags': ('-O1',)}))
+    # defined shared memory (threads build of the runtime) and the external data-segment blob (-d gnu-ld) for the layouts with several segments
+    for data in ('none', 'one', 'overlap', 'passive+active'):
+        for start in ('none', 'defined'):
+            jobs.append(('config', config_module('shared', data, 'none', 0, start), {'cc': 'gcc', 'cflags': ('-O1', '-pthread'), 'defines': ('-DWASM_THREADS_PTHREADS',)}))
+    for mem in ('defined', 'imported'):
+        for data in ('overlap', 'passive+active', 'globaloff'):
+            b = config_module(mem, data, 'defined', 1, 'defined')
+            b.desc += ' -d gnu-ld'
+            jobs.append(('config', b, {'cc': 'gcc', 'cflags': ('-O1',), 'w2c2_args': ('-d', 'gnu-ld')}))
     jobs.append(('config', names_module(), {'cc': 'gcc', 'cflags': ('-O1',)}))
     seqlen = 3 if tier == 'quick' else 4
     for mem, data, table, elems, start in (('defined', 'one', 'defined', 1, 'defined'), ('imported', 'overlap', 'imported', 2, 'defined'),
@@ -230,7 +242,7 @@ def main(tier):
     chk.cov['traces_validated_against_impl'] = transitions
     chk.cov['families'] = fam
     chk.cov['distinct_nontrivial'] += fam['two-instances']['sequences']
-    chk.cov['rule'] = ('config: one module per element of {no, defined, imported memory} x {none, one, overlapping, passive+active(flag 2), imported-global-offset '
+    chk.cov['rule'] = ('config: one module per element of {no, defined, imported memory (+ defined shared memory; + the multi-segment layouts translated with -d gnu-ld and linked through ld -r -b binary)} x {none, one, overlapping, passive+active(flag 2), imported-global-offset '
                        'data segments} x {no, defined, imported table} x {0,1,2(overlapping, imported-global offset)} element segments x {no, defined, '
                        'imported start}, each with 10 globals (all types, NaN/-0/inf initialisers, global.get of an import, imported mutable) and duplicate / '
                        're-exported function exports; after Instantiate every memory byte of the window, every global, every table slot and the host calls '
